@@ -204,17 +204,13 @@ def is_identically_zero(e, sqrt_rel=()):
             if s.get_id() not in free_vars(z):
                 continue
             parts = _degree_split(z, s)
-            even = None
-            odd = None
+            even, odd = [], []
             for k, c in parts.items():
                 t = c
                 for _ in range(k // 2):
                     t = t * u
-                if k % 2 == 0:
-                    even = t if even is None else even + t
-                else:
-                    odd = t if odd is None else odd + t
-            return all(is_identically_zero(x, rel) for x in (even, odd) if x is not None)
+                (even if k % 2 == 0 else odd).append(t)
+            return all(is_identically_zero(z3.Sum(x) if len(x) > 1 else x[0], rel) for x in (even, odd) if x)
         return False
     except (Give, z3.Z3Exception, RecursionError):
         return False
